@@ -116,6 +116,8 @@ func execLogMw(args []string) string {
 			for _, op := range SplitList(ops, ".") {
 				if op == "w" {
 					_, _ = w.Write([]byte("body-" + r.Header.Get("X-Id")))
+				} else if op == "z" {
+					_, _ = w.Write(nil) // a zero-length write commits the response like any other
 				} else if op != "" {
 					w.WriteHeader(Atoi(op[1:]))
 				}
@@ -318,7 +320,7 @@ func genC20(g *G) {
 		g.Emit("wrap", strings.Join(ids, ","))
 	}
 	methods := []string{"GET", "POST", "PUT", "DELETE"}
-	opsPool := []string{"", "w", "h200", "h204", "h404.w", "h500", "w.w", "h103.h404", "h103.w.h200", "h100.h101", "h301.w", "h404.h500"}
+	opsPool := []string{"", "w", "h200", "h204", "h404.w", "h500", "w.w", "h103.h404", "h103.w.h200", "h100.h101", "h301.w", "h404.h500", "z", "z.h418", "z.w", "h204.z", "z.z.h500"}
 	for i := 0; i < g.N(4000, 100000); i++ {
 		n := 1 + g.Rnd.IntN(5)
 		var rs []string
